@@ -1,215 +1,840 @@
-"""Suite `headercache` (C11): the real `MerkleCache` with a source function that suspends (as
-`DB.fs_block_hashes` does while its worker thread reads) against `EV.HeaderCache`: every
-interleaving of extension start / worker read / extension finish / back-out (truncate) / new blocks,
-exhaustively up to a length bound.  Direct oracle after every event: the cache's level must be the
-level of the *current* source hashes (the invariant C11's header proofs rest on)."""
-import asyncio
-import itertools
+"""Suite `headercache` (C11, header-proof part): the REAL code path of a `blockchain.block.header(h, cp)`
+proof -- `ElectrumX._merkle_proof` (range check) -> `DB.header_branch_and_root` ->
+`MerkleCache.branch_and_root / _extend_to / _level_for` -> `DB.fs_block_hashes` -> `DB.read_headers`
+-- with any number of requests in flight, against `EV.HeaderCache` (`evdrv headercache`).
 
-from harness.common import SuiteResult, rng_for, run_evdrv
+What is real: the coroutine code of all of the above (the unmodified functions of the classes in
+VERIF_REPO, bound to a `DB` object built without `__init__`), the `read_headers` closure that a
+worker thread would run (it is *performed* when the event sequence says so and reads
+`DB.state.height` and the headers file as they are then; its result is *delivered* to the suspended
+coroutine when the event sequence says so), `MerkleCache.truncate`, and `DB.flush_backup /
+backup_fs / flush_utxo_db`, which run in a real second thread that is held after the first of its
+two effects (`DB.state` assigned / `header_mc.truncate` returned) until the event sequence ends the
+back-out.  The ORDER of those two effects is therefore whatever the current source does; it is
+also measured once per run (`derive_order`) and handed to the Lean model as `Cfg.lowerFirst`, so
+re-ordering the code changes the schedule space explored here *and* the model it is compared with.
+What is emulated: the headers file (a bytearray), the UTXO/history back ends (no-ops), the hash
+function (free term constructor, as in suite `merkle`), and `append` (headers written, then
+`DB.state` raised -- the order of `flush_dbs`, read off the source).
+
+corr    after every event the canonical state line (cache length + level, truncation counter,
+        visible length + half-done back-out, every request's wait point / pending read / result)
+        must equal the model's, for the model variant `Cfg.fixed` with the measured `lowerFirst`.
+direct  judged on the real objects with a plain-Python merkle tree, independently of the model:
+        (safety) every answer equals the from-scratch branch and root of `S[:cp+1]` at `height` for
+        some value `S` of the visible block hashes between the request's start and its answer with
+        `cp < len(S)`; (refusal) a request with `cp` beyond the visible chain at its start is
+        refused; (cache) whenever no back-out is half done the cache is the level of the visible
+        hashes, and in the half-done window it is the level of the chain before the back-out.
+"""
+import os
+import threading
+import types
+
+from harness.common import SuiteResult, rng_for, run_evdrv, ddmin
+
+HDR = 80
 
 
 def term(x):
     return b'(' + x + b')'
 
 
-class SourceError(Exception):
-    pass
+# ---- plain merkle tree (nothing shared with electrumx.lib.merkle) -------------------------------
+
+def plain_level_up(hs):
+    hs = list(hs)
+    if len(hs) & 1:
+        hs.append(hs[-1])
+    return [term(hs[i] + hs[i + 1]) for i in range(0, len(hs), 2)]
+
+
+def plain_branch_root(hs, index):
+    hs = list(hs)
+    branch = []
+    while len(hs) > 1:
+        if len(hs) & 1:
+            hs.append(hs[-1])
+        branch.append(hs[index ^ 1])
+        index >>= 1
+        hs = [term(hs[i] + hs[i + 1]) for i in range(0, len(hs), 2)]
+    return branch, hs[0]
+
+
+def plain_level(hs, dh):
+    size = 1 << dh
+    out = []
+    for i in range(0, len(hs), size):
+        seg = list(hs[i:i + size])
+        for _ in range(dh):
+            seg = plain_level_up(seg)
+        out.append(seg[0])
+    return out
+
+
+# ---- the worker thread that runs DB.flush_backup ------------------------------------------------
+
+class Worker:
+    """One persistent thread; a job runs until its first recorded effect, is held there, and is
+    released by `finish`.  Hand-over by two semaphores, so exactly one thread runs at a time."""
+
+    def __init__(self):
+        self.to_worker = threading.Semaphore(0)
+        self.to_main = threading.Semaphore(0)
+        self.job = None
+        self.effects = []
+        self.error = None
+        self.running = False
+        self.thread = threading.Thread(target=self._loop, daemon=True, name='hc-flush-backup')
+        self.thread.start()
+
+    def _loop(self):
+        while True:
+            self.to_worker.acquire()
+            try:
+                self.job()
+            except BaseException as e:     # reported to the main thread
+                self.error = e
+            self.running = False
+            self.to_main.release()
+
+    def effect(self, kind, arg=None):
+        if threading.current_thread() is not self.thread:
+            return
+        self.effects.append((kind, arg))
+        if len(self.effects) == 1:
+            self.to_main.release()
+            self.to_worker.acquire()
+
+    def begin(self, job):
+        self.job, self.effects, self.error, self.running = job, [], None, True
+        self.to_worker.release()
+        self.to_main.acquire()
+        self._check()
+        return self.running            # False: the job ended without pausing
+
+    def finish(self):
+        if self.running:
+            self.to_worker.release()
+            self.to_main.acquire()
+        self._check()
+        return list(self.effects)
+
+    def _check(self):
+        if self.error is not None:
+            e, self.error = self.error, None
+            raise RuntimeError(f'flush_backup job raised {e!r}')
+
+
+_worker = None
+
+
+def worker():
+    global _worker
+    if _worker is None:
+        _worker = Worker()
+    return _worker
+
+
+# ---- the real objects ---------------------------------------------------------------------------
+
+class Suspend:
+    """What `await run_in_thread(func)` waits on: yields itself to whoever drives the coroutine."""
+    __slots__ = ('func', 'args', 'performed', 'value')
+
+    def __init__(self, func, args):
+        self.func, self.args, self.performed, self.value = func, args, False, None
+
+    def __await__(self):
+        yield self
+        return self.value
+
+
+async def held_run_in_thread(func, *args):
+    return await Suspend(func, args)
+
+
+class _Batch:
+    def put(self, k, v):
+        pass
+
+    def delete(self, k):
+        pass
+
+    def __enter__(self):
+        return self
+
+    def __exit__(self, *a):
+        return False
+
+
+class _UtxoDB(_Batch):
+    for_sync = False
+
+    def write_batch(self):
+        return _Batch()
+
+
+class _History:
+    flush_count = 0
+
+    def assert_flushed(self):
+        pass
+
+    def backup(self, touched, tx_count):
+        pass
+
+
+class _HeadersFile:
+    def __init__(self):
+        self.buf = bytearray()
+
+    def read(self, offset, size):
+        return bytes(self.buf[offset:offset + size])
+
+    def write(self, offset, data):
+        self.buf[offset:offset + len(data)] = data
+
+
+def _classes():
+    import electrumx.server.db as dbmod
+    from electrumx.lib.merkle import Merkle, MerkleCache
+    from electrumx.server.session import ElectrumX
+    from aiorpcx import RPCError
+    return dbmod, Merkle, MerkleCache, ElectrumX, RPCError
+
+
+def make_stub_classes():
+    dbmod, Merkle, MerkleCache, ElectrumX, RPCError = _classes()
+    w = worker()
+
+    class StubDB(dbmod.DB):
+        """The real DB class; only construction is bypassed and assignments to `state` are reported."""
+
+        def __init__(self):
+            pass
+
+        def __setattr__(self, k, v):
+            object.__setattr__(self, k, v)
+            if k == 'state':
+                w.effect('state', v.height)
+
+    class HookedCache(MerkleCache):
+        def truncate(self, length):
+            try:
+                return MerkleCache.truncate(self, length)
+            finally:
+                w.effect('truncate', length)
+
+    return StubDB, HookedCache
+
+
+def hdr(name):
+    return name.ljust(HDR, b'\0')
 
 
 class Real:
     def __init__(self, src, dh, n):
-        from electrumx.lib.merkle import Merkle, MerkleCache
-        self.loop = asyncio.new_event_loop()
-        self.src = list(src)
-        self.merkle = Merkle(hash_func=term)
-        self.cache = MerkleCache(self.merkle, self.source)
-        self.cache.length = n
-        self.cache.depth_higher = dh
-        self.cache.level = self.merkle.level(self.src[:n], dh)
-        self.cache.initialized.set()
-        self.pending = None
-        self.snapshot = None
-        self.task = None
+        dbmod, Merkle, MerkleCache, ElectrumX, RPCError = _classes()
+        self.dbmod, self.ElectrumX, self.RPCError = dbmod, ElectrumX, RPCError
+        StubDB, HookedCache = make_stub_classes()
+        db = self.db = StubDB()
+        db.coin = types.SimpleNamespace(header_hash=lambda h: h.rstrip(b'\0'), GENESIS_HASH='00')
+        db.headers_file = _HeadersFile()
+        db.headers_file.write(0, b''.join(hdr(x) for x in src))
+        db.utxo_db = _UtxoDB()
+        db.history = _History()
+        import logging
+        db.logger = logging.getLogger('hc-stub')
+        db.fs_height = len(src) - 1
+        db.fs_tx_count = len(src)
+        db.state = dbmod.ChainState(height=len(src) - 1, tx_count=len(src), chain_size=0, tip=b'', flush_count=0,
+                                    sync_time=0, flush_time=0, first_sync=False, db_version=8, utxo_count=0)
+        db.last_flush_state = db.state.copy()
+        db.merkle = Merkle(hash_func=term)
+        db.header_mc = HookedCache(db.merkle, db.fs_block_hashes)
+        c = self.cache = db.header_mc
+        c.length = n
+        c.depth_higher = dh
+        c.level = db.merkle.level(list(src[:n]), dh)
+        c.initialized.set()
+        self.session = types.SimpleNamespace(db=db)
+        self.reqs = []            # dicts: coro, susp, result, cp, height, h0
+        self.pending = None       # half-done back-out target (number of hashes kept)
+        self.before = None        # the visible hashes before the half-done back-out
+        self.hist = [self.visible()]
+        self.fresh = 0
+        self.order_seen = None
+        self.violations = []      # (clause, detail) found by the direct oracle
 
-    async def source(self, start, count):
-        fut = self.loop.create_future()
-        self.pending = (start, count, fut)
-        self.snapshot = None
-        return await fut
+    # -- observation
+    def visible(self):
+        n = self.db.state.height + 1
+        buf = self.db.headers_file.buf
+        return tuple(bytes(buf[i * HDR:(i + 1) * HDR]).rstrip(b'\0') for i in range(n))
 
-    def spin(self):
-        for _ in range(20):
-            self.loop.run_until_complete(asyncio.sleep(0))
+    def _advance(self, r):
+        """run request r's coroutine to its next suspension or its end"""
+        try:
+            r['susp'] = r['coro'].send(None)
+            if not isinstance(r['susp'], Suspend):
+                raise RuntimeError(f'unexpected suspension on {r["susp"]!r}')
+        except StopIteration as e:
+            r['susp'] = None
+            d = e.value
+            br = [bytes.fromhex(x)[::-1] for x in d['branch']]
+            r['result'] = ('A', br, bytes.fromhex(d['root'])[::-1])
+            self._judge_answer(r)
+        except self.RPCError:
+            r['susp'], r['result'] = None, ('R',)
+        except self.dbmod.DB.DBError:
+            r['susp'], r['result'] = None, ('X', 'DBError')
+        except (ValueError, TypeError, IndexError) as e:
+            r['susp'], r['result'] = None, ('X', type(e).__name__)
 
-    def in_flight(self):
-        return self.task is not None and not self.task.done()
+    def _judge_answer(self, r):
+        _, br, root = r['result']
+        length, index = r['cp'] + 1, r['height']
+        for S in self.hist[r['h0']:]:
+            if length <= len(S) and plain_branch_root(S[:length], index) == (br, root):
+                return
+        self.violations.append(('header proof does not verify against any chain current during the request',
+                                f'request #{self.reqs.index(r)} block.header({index}, cp={r["cp"]}) answered root '
+                                f'{root.decode()}; chains visible during the request: '
+                                + ' / '.join(','.join(x.decode() for x in S) for S in self.hist[r['h0']:])))
 
+    # -- events
     def ev(self, e):
         kind = e[0]
-        if kind == 'XS':
-            if not self.in_flight() and e[1] > self.cache.length:
-                self.pending = None
-                self.task = self.loop.create_task(self.cache._extend_to(e[1]))
-                self.spin()
-        elif kind == 'XR':
-            if self.in_flight() and self.pending and self.snapshot is None:
-                start, count, fut = self.pending
-                if start + count <= len(self.src):
-                    self.snapshot = list(self.src[start:start + count])
-                else:
-                    fut.set_exception(SourceError())
-                    self.pending = None
-                    self.spin()
-                    self.task.exception()
-                    self.task = None
-        elif kind == 'XF':
-            if self.in_flight() and self.pending and self.snapshot is not None:
-                start, count, fut = self.pending
-                self.pending = None
-                fut.set_result(self.snapshot)
-                self.snapshot = None
-                self.spin()
-                if self.task.done():
-                    self.task.result()
-                    self.task = None
-        elif kind == 'BK':
+        if kind == 'ST':
+            cp, height = e[1], e[2]
+            r = {'coro': self.ElectrumX._merkle_proof(self.session, cp, height), 'susp': None, 'result': None,
+                 'cp': cp, 'height': height, 'h0': len(self.hist) - 1}
+            self.reqs.append(r)
+            outside = not (height <= cp < len(self.hist[-1]))
+            self._advance(r)
+            if outside and r['result'] != ('R',):
+                self.violations.append(('request outside the chain not refused',
+                                        f'block.header({height}, cp={cp}) with {len(self.hist[-1])} visible hashes: {r["result"] or "accepted"}'))
+        elif kind == 'PF':
+            r = self.reqs[e[1]] if e[1] < len(self.reqs) else None
+            if r and r['susp'] is not None and not r['susp'].performed:
+                s = r['susp']
+                s.value = s.func(*s.args)          # the real `read_headers` closure, now
+                s.performed = True
+        elif kind == 'DL':
+            r = self.reqs[e[1]] if e[1] < len(self.reqs) else None
+            if r and r['susp'] is not None and r['susp'].performed:
+                self._advance(r)
+        elif kind == 'BB':
             n = e[1]
-            if 0 < n < len(self.src):
-                self.src = self.src[:n]
-                self.cache.truncate(n)
+            if self.pending is None and 0 < n < len(self.hist[-1]):
+                db = self.db
+                st = db.state.copy()
+                st.height, st.tx_count = n - 1, n
+                fd = self.dbmod.FlushData(state=st, headers=[], block_tx_hashes=[], undo_infos=[], adds={}, deletes=[])
+                self.before = self.hist[-1]
+                held = worker().begin(lambda: self.dbmod.DB.flush_backup(db, fd, set()))
+                self.pending = n
+                if not held:
+                    self._end_backout()
+        elif kind == 'BE':
+            if self.pending is not None:
+                self._end_backout()
         elif kind == 'AP':
-            self.src += e[1]
+            if self.pending is None:
+                names = e[1]
+                db = self.db
+                h = db.state.height
+                db.headers_file.write((h + 1) * HDR, b''.join(hdr(x) for x in names))
+                db.fs_height = h + len(names)
+                st = db.state.copy()
+                st.height, st.tx_count = h + len(names), h + len(names) + 1
+                db.state = st
+        else:
+            raise ValueError(e)
+        v = self.visible()
+        if v != self.hist[-1]:
+            self.hist.append(v)
+        self._judge_cache()
 
+    def _end_backout(self):
+        effects = worker().finish()
+        self.pending = None
+        self.before = None
+        self.order_seen = tuple(k for k, _a in effects)
+
+    def _judge_cache(self):
+        c = self.cache
+        ref = self.before if self.pending is not None else self.hist[-1]
+        what = 'the chain before the half-done back-out' if self.pending is not None else 'the visible chain'
+        if c.length > len(ref):
+            self.violations.append(('header cache inconsistent with the chain',
+                                    f'cache length {c.length} exceeds the {len(ref)} hashes of {what}'))
+        elif list(c.level) != plain_level(ref[:c.length], c.depth_higher):
+            self.violations.append(('header cache inconsistent with the chain',
+                                    f'cache level {",".join(x.decode() for x in c.level)} is not the level of {what} '
+                                    f'{",".join(x.decode() for x in ref[:c.length])}'))
+
+    # -- canonical state line
     def show(self):
         def sl(l):
             return ','.join(x.decode() for x in l) if l else '-'
-        if self.in_flight() and self.pending:
-            start, count, _ = self.pending
-            ext = f'{start + count},{start},' + ('?' if self.snapshot is None else sl(self.snapshot))
-        else:
-            ext = '-'
-        return f'{self.cache.length} {sl(self.cache.level)} | {ext}'
-
-    def invariant_fails(self):
+        parts = []
+        for r in self.reqs:
+            if r['susp'] is not None:
+                names = []
+                co = r['coro']
+                while co is not None and hasattr(co, 'cr_code'):
+                    names.append(co.cr_code.co_name)
+                    co = co.cr_await
+                kind = 'E' if '_extend_to' in names else 'V' if '_level_for' in names else 'L'
+                f = r['susp'].func
+                fv = dict(zip(f.__code__.co_freevars, (c.cell_contents for c in f.__closure__)))
+                start, count = fv['start_height'], fv['count']
+                if not r['susp'].performed:
+                    d = '?'
+                else:
+                    binary, got = r['susp'].value
+                    d = '!' if got != count else sl([binary[i * HDR:(i + 1) * HDR].rstrip(b'\0') for i in range(got)])
+                parts.append(f'{kind} {start},{count},{d}')
+            else:
+                res = r['result']
+                if res[0] == 'A':
+                    parts.append(f'A {sl(res[1])} {res[2].decode()}')
+                elif res[0] == 'R':
+                    parts.append('R')
+                else:
+                    parts.append(f'X {res[1]}')
         c = self.cache
-        if c.length > len(self.src):
-            return f'cache length {c.length} exceeds the {len(self.src)} hashes the DB holds'
-        want = self.merkle.level(self.src[:c.length], c.depth_higher) if c.length else []
-        if list(c.level) != want:
-            return (f'cache level {[x.decode() for x in c.level]} is not the level of the current hashes '
-                    f'{[x.decode() for x in want]} (length {c.length})')
-        return None
+        pend = '-' if self.pending is None else str(self.pending)
+        return (f'{c.length} {sl(c.level)} | {c.truncations} | {self.db.state.height + 1} {pend} | '
+                + ' ; '.join(parts))
+
+    def enabled(self):
+        """(request indices with an unperformed read, request indices with a performed read)"""
+        pf = [i for i, r in enumerate(self.reqs) if r['susp'] is not None and not r['susp'].performed]
+        dl = [i for i, r in enumerate(self.reqs) if r['susp'] is not None and r['susp'].performed]
+        return pf, dl
 
     def close(self):
-        if self.in_flight():
-            self.task.cancel()
-            self.spin()
-        self.loop.close()
+        if self.pending is not None:
+            self._end_backout()
+        for r in self.reqs:
+            if r['susp'] is not None:
+                r['coro'].close()
 
+
+class patched_run_in_thread:
+    """`electrumx.server.db.run_in_thread` held for the duration of the suite, restored afterwards"""
+
+    def __enter__(self):
+        import electrumx.server.db as dbmod
+        self.dbmod, self.saved = dbmod, dbmod.run_in_thread
+        dbmod.run_in_thread = held_run_in_thread
+
+    def __exit__(self, *a):
+        self.dbmod.run_in_thread = self.saved
+        return False
+
+
+def derive_order():
+    """Run the real `DB.flush_backup` once and report in which order it lowers `DB.state` and
+    truncates the header cache: 'lower-first' / 'trunc-first'."""
+    real = Real([b'a', b'b', b'c', b'd'], 0, 4)
+    real.ev(('BB', 2))
+    first = list(worker().effects)
+    real.ev(('BE',))
+    kinds = real.order_seen
+    real.close()
+    if len(first) != 1 or sorted(kinds) != ['state', 'truncate']:
+        raise RuntimeError(f'DB.flush_backup no longer lowers DB.state and truncates header_mc exactly once each: {kinds}')
+    return 'lower-first' if kinds[0] == 'state' else 'trunc-first'
+
+
+# ---- running one event sequence -----------------------------------------------------------------
 
 def ev_line(e):
-    if e[0] in ('XS', 'BK'):
-        return f'{e[0]} {e[1]}'
     if e[0] == 'AP':
         return 'AP ' + ','.join(x.decode() for x in e[1])
-    return e[0]
+    return ' '.join(str(x) for x in e)
 
 
-def run_sequence(res, lines, expect, src, dh, n, evs):
-    real = Real(src, dh, n)
-    lines.append(f'NEW 0 {dh} {n} ' + ','.join(x.decode() for x in src))
-    expect.append(real.show())
-    viol = None
-    fresh = 0
-    for i, e in enumerate(evs):
-        if e[0] == 'AP':
-            e = ('AP', [f'n{fresh + k}'.encode() for k in range(e[1])])
+def parse_line(l):
+    w = l.split()
+    if w[0] == 'AP':
+        return ('AP', [x.encode() for x in w[1].split(',')])
+    return (w[0],) + tuple(int(x) for x in w[1:])
+
+
+def src_names(k):
+    return [f'h{i}'.encode() for i in range(k)]
+
+
+def concretise(evs):
+    """('AP', k) -> ('AP', [fresh names])"""
+    out, fresh = [], 0
+    for e in evs:
+        if e[0] == 'AP' and isinstance(e[1], int):
+            e = ('AP', [f'n{fresh + j}'.encode() for j in range(e[1])])
             fresh += len(e[1])
-            evs[i] = e
-        real.ev(e)
-        lines.append(ev_line(e))
-        expect.append(real.show())
-        f = real.invariant_fails()
-        if f and viol is None:
-            viol = (i, f)
-    real.close()
-    return viol
+        out.append(e)
+    return out
 
+
+def new_line(flags, dh, n, src):
+    return f'NEW {flags} {dh} {n} ' + ','.join(x.decode() for x in src)
+
+
+def run_real(src, dh, n, evs, every=True):
+    """-> (state lines after each event (or only the last), violations [(event index, clause, detail)], Real.enabled())"""
+    real = Real(src, dh, n)
+    shown, viols = [], []
+    try:
+        for i, e in enumerate(evs):
+            real.ev(e)
+            if every or i == len(evs) - 1:
+                shown.append(real.show())
+            while real.violations:
+                c, d = real.violations.pop(0)
+                viols.append((i, c, d))
+        en = real.enabled() + (real.pending, len(real.hist[-1]), len(real.reqs))
+    finally:
+        real.close()
+    return shown, viols, en
+
+
+class Batch:
+    """collects driver input and the expected lines; compared in one `evdrv` run"""
+
+    def __init__(self, flags):
+        self.flags = flags
+        self.lines, self.expect, self.cases = [], [], []
+
+    def add(self, case, shown_last_only, shown):
+        src, dh, n, evs = case
+        self.cases.append((len(self.lines), case))
+        self.lines.append(new_line(self.flags, dh, n, src))
+        self.expect.append(None)
+        for i, e in enumerate(evs):
+            self.lines.append(ev_line(e))
+            if shown_last_only:
+                self.expect.append(shown[0] if i == len(evs) - 1 else None)
+            else:
+                self.expect.append(shown[i])
+
+    def compare(self, res, limit=3):
+        if not self.lines:
+            return
+        got = run_evdrv('headercache', self.lines)
+        bad = 0
+        starts = [s for s, _c in self.cases]
+        import bisect
+        for i, (e, g) in enumerate(zip(self.expect, got)):
+            if e is not None and e != g:
+                k = bisect.bisect_right(starts, i) - 1
+                s, (src, dh, n, evs) = self.cases[k]
+                res.disagreements.append({'suite': 'headercache', 'dh': dh, 'n': n, 'src': [x.decode() for x in src],
+                                          'flags': self.flags, 'events': [ev_line(x) for x in evs[:i - s]],
+                                          'code': e, 'model': g})
+                bad += 1
+                if bad >= limit:
+                    break
+
+
+def shrink_violation(src, dh, n, evs, clause):
+    def fails(sub):
+        _s, v, _e = run_real(src, dh, n, list(sub), every=False)
+        return any(c == clause for _i, c, _d in v)
+    evs = list(evs)
+    try:
+        small = ddmin(evs, fails)
+        if fails(small):
+            return small
+    except Exception:
+        pass
+    return evs
+
+
+def report(res, src, dh, n, evs, viols, seen, tag=''):
+    for i, clause, detail in viols:
+        if (clause, tag) in seen:
+            continue
+        seen.add((clause, tag))
+        small = shrink_violation(src, dh, n, evs[:i + 1], clause)
+        _s, v2, _e = run_real(src, dh, n, small, every=False)
+        d2 = next((d for _i, c, d in v2 if c == clause), detail)
+        res.violations.append({'suite': 'headercache', 'clause': clause, 'detail': d2, 'dh': dh, 'n': n,
+                               'src': [x.decode() for x in src], 'events': [ev_line(e) for e in small],
+                               'corpus': tag})
+
+
+# ---- corpus -------------------------------------------------------------------------------------
+
+def corpus():
+    S9 = src_names(9)
+    return [
+        # F7: an extension read performed before a back-out and delivered after it (and after regrowth)
+        {'name': 'F7', 'src': S9, 'dh': 0, 'n': 3,
+         'events': ['ST 8 0', 'PF 0', 'BB 7', 'BE', 'AP n0,n1', 'DL 0', 'PF 0', 'DL 0', 'PF 0', 'DL 0', 'PF 0', 'DL 0',
+                    'ST 8 1', 'PF 1', 'DL 1', 'PF 1', 'DL 1'],
+         'shape': lambda lines: any(l.split(' | ')[3].startswith('E ') and not l.endswith('?')
+                                    and l.split(' | ')[1] != '0' for l in lines)},
+        # F17: two extensions in flight; the longer one finishes first, the shorter one shrinks the cache
+        {'name': 'F17', 'src': S9, 'dh': 1, 'n': 4,
+         'events': ['ST 8 0', 'ST 5 0', 'PF 0', 'PF 1', 'DL 0', 'DL 1', 'PF 0', 'DL 0', 'PF 0', 'DL 0'],
+         'shape': lambda lines: any(l.split(' | ')[3].count('E ') == 2 for l in lines)},
+        # F18: a request started between the two halves of a back-out extends the cache
+        {'name': 'F18', 'src': S9, 'dh': 1, 'n': 4,
+         'events': ['BB 7', 'ST 8 0', 'PF 0', 'DL 0', 'BE', 'AP n0,n1', 'PF 0', 'DL 0', 'PF 0', 'DL 0',
+                    'ST 8 0', 'PF 1', 'DL 1', 'PF 1', 'DL 1', 'PF 1', 'DL 1'],
+         'shape': lambda lines: any(l.split(' | ')[2].split()[1] != '-' and l.split(' | ')[3] for l in lines)},
+        # the same window with a checkpoint below the back-out target (accepted under either order)
+        {'name': 'F18b', 'src': S9, 'dh': 1, 'n': 4,
+         'events': ['BB 7', 'ST 6 0', 'PF 0', 'DL 0', 'BE', 'AP n0,n1', 'PF 0', 'DL 0', 'PF 0', 'DL 0',
+                    'ST 8 0', 'PF 1', 'DL 1', 'PF 1', 'DL 1', 'PF 1', 'DL 1'],
+         'shape': lambda lines: any(l.split(' | ')[2].split()[1] != '-' and ' | E ' in l for l in lines)},
+        # F19: truncation between _extend_to and _level_for of one request (its extension really performed
+        # first), back-out crossing two segment boundaries, chain regrown before the request resumes
+        {'name': 'F19', 'src': S9, 'dh': 1, 'n': 4,
+         'events': ['ST 8 1', 'PF 0', 'DL 0', 'BB 5', 'BE', 'AP n0,n1,n2,n3', 'PF 0', 'DL 0', 'PF 0', 'DL 0',
+                    'PF 0', 'DL 0', 'PF 0', 'DL 0', 'PF 0', 'DL 0'],
+         'shape': lambda lines: any(' | L ' in l and l.split(' | ')[1] == '1' for l in lines)},
+        # F19 with the cache already long enough at the start (no extension at all)
+        {'name': 'F19-cached', 'src': S9, 'dh': 1, 'n': 9,
+         'events': ['ST 8 0', 'BB 4', 'BE', 'AP n0,n1,n2,n3,n4', 'PF 0', 'DL 0', 'PF 0', 'DL 0', 'PF 0', 'DL 0',
+                    'PF 0', 'DL 0', 'PF 0', 'DL 0'],
+         'shape': lambda lines: any(' | L ' in l and l.split(' | ')[1] == '1' for l in lines)},
+        # F17 leaving the cache itself inconsistent (found by the random schedules on the pinned _extend_to):
+        # three extensions in flight over a growing chain
+        {'name': 'F17-cache', 'src': src_names(13), 'dh': 2, 'n': 5,
+         'events': ['ST 1 0', 'ST 7 0', 'PF 1', 'ST 1 1', 'AP n0,n1,n2,n3', 'ST 15 0', 'PF 3', 'DL 3', 'ST 11 7',
+                    'ST 16 8', 'PF 5', 'DL 1', 'DL 5'],
+         'shape': lambda lines: any(l.split(' | ')[3].count('E ') >= 2 for l in lines)},
+    ]
+
+
+# ---- exhaustive enumeration ---------------------------------------------------------------------
+
+def scopes(tier):
+    """(name, src length, dh, n, start menu, back-out menu, append sizes, limits) -- limits =
+    (max events, max requests, max back-outs, max appends)"""
+    q = tier == 'quick'
+    return [
+        # concurrent extensions, no DB events (the F17 shape needs 10 events)
+        ('two-ext', 9, 1, 4, [(8, 0), (5, 0)], [], [], (10 if q else 13, 2, 0, 0)),
+        ('two-ext-dh0', 7, 0, 3, [(6, 0), (4, 2)], [], [], (10 if q else 13, 2, 0, 0)),
+        ('three-ext', 9, 1, 2, [(8, 0), (5, 4), (3, 3)], [], [], (7 if q else 9, 3, 0, 0)),
+        # one request against back-out / regrowth (F7, F18, F19 shapes)
+        ('one-req-reorg', 9, 1, 4, [(8, 0), (5, 4)], [4, 7], [2], (10 if q else 13, 1, 1, 1)),
+        ('one-req-cached', 9, 1, 9, [(8, 0), (6, 5)], [4, 5], [5], (10 if q else 13, 1, 1, 1)),
+        ('one-req-dh2', 9, 2, 9, [(8, 0), (6, 5)], [3, 6], [6], (10 if q else 13, 1, 1, 1)),
+        # two requests against one back-out (+ regrowth)
+        ('two-req-reorg', 9, 1, 4, [(8, 0), (6, 1)], [5], [4], (8 if q else 9, 2, 1, 1)),
+        ('window', 7, 0, 3, [(6, 0), (4, 1)], [4], [3], (7 if q else 9, 2, 1, 1)),
+    ] + ([] if q else [
+        ('two-backouts', 9, 1, 9, [(8, 0)], [4, 6], [3], (10, 1, 2, 2)),
+        ('two-req-two-ext-reorg', 9, 1, 4, [(8, 0), (5, 0)], [6], [3], (9, 2, 1, 1)),
+    ])
+
+
+def enumerate_scope(res, batch, scope, seen_clauses, budget):
+    name, slen, dh, n, starts, bos, aps, (maxlen, maxreq, maxbo, maxap) = scope
+    src = src_names(slen)
+    nodes = 0
+    # DFS; every node = one event sequence, replayed from scratch on fresh real objects
+    stack = [([], ([], [], None, slen, 0), 0, 0)]
+    while stack:
+        evs, (pf, dl, pending, vis, nreq), nbo, nap = stack.pop()
+        if len(evs) >= maxlen:
+            continue
+        cand = [('PF', i) for i in pf] + [('DL', i) for i in dl]
+        if nreq < maxreq:
+            cand += [('ST', cp, h) for cp, h in starts]
+        if pending is None:
+            if nbo < maxbo:
+                cand += [('BB', b) for b in bos if 0 < b < vis]
+            if nap < maxap:
+                cand += [('AP', k) for k in aps]
+        else:
+            cand.append(('BE',))
+        for e in cand:
+            seq = concretise(evs + [e])
+            shown, viols, en = run_real(src, dh, n, seq, every=False)
+            nodes += 1
+            batch.add((src, dh, n, seq), True, shown)
+            nontrivial = sum(1 for x in seq if x[0] == 'ST') >= 2 or any(x[0] == 'BB' for x in seq)
+            res.note_case(f'{name}|' + ';'.join(ev_line(x) for x in seq), nontrivial=nontrivial)
+            if viols:
+                report(res, src, dh, n, seq, viols, seen_clauses)
+                continue                       # do not extend a sequence that already failed
+            stack.append((evs + [e], en, nbo + (e[0] == 'BB'), nap + (e[0] == 'AP')))
+            if nodes >= budget:
+                res.bump(f'scope {name} cut at budget')
+                res.exhaustive = False
+                return nodes
+    res.bump(f'scope {name} sequences', nodes)
+    return nodes
+
+
+# ---- seeded random schedules --------------------------------------------------------------------
+
+def random_schedule(rng, res):
+    """A long schedule generated against the live real objects, biased to the dangerous shapes."""
+    slen = rng.randrange(5, 14)
+    dh = rng.choice([0, 1, 1, 2, 2, 3])
+    n = rng.randrange(1, slen + 1)
+    src = src_names(slen)
+    real = Real(src, dh, n)
+    evs, viols = [], []
+    shape = rng.choice(['two-ext', 'cross-segment', 'regrow', 'window', 'mixed', 'mixed'])
+    fresh = 0
+    steps = rng.randrange(8, 40)
+    try:
+        for _ in range(steps):
+            pf, dl = real.enabled()
+            vis = len(real.hist[-1])
+            w = []
+            for i in pf:
+                w.append((3, ('PF', i)))
+            for i in dl:
+                w.append((3, ('DL', i)))
+            active = len(pf) + len(dl)
+            if len(real.reqs) < 6:
+                st_w = 2 if active < 2 else 1
+                if shape == 'two-ext' and active < 3:
+                    st_w = 6
+                if shape == 'window' and real.pending is not None:
+                    st_w = 10
+                u = rng.random()
+                if u < 0.12:
+                    cp = rng.randrange(0, vis + 3)                 # possibly outside the chain
+                elif u < 0.75 and real.cache.length < vis:
+                    cp = rng.randrange(real.cache.length, vis)     # above the cache: needs an extension
+                else:
+                    cp = rng.randrange(0, vis)
+                height = rng.randrange(0, cp + 2) if rng.random() < 0.1 else rng.randrange(0, cp + 1)
+                w.append((st_w, ('ST', cp, height)))
+            if real.pending is None:
+                if vis > 1:
+                    seg = 1 << dh
+                    if shape in ('cross-segment', 'regrow') and vis > seg:
+                        b = max(1, (rng.randrange(1, vis) // seg) * seg - rng.choice([0, 0, 1]))
+                    else:
+                        b = rng.randrange(1, vis)
+                    w.append((2 if active else 1, ('BB', b)))
+                k = rng.randrange(1, 6)
+                ap_w = 1
+                if shape in ('regrow', 'cross-segment') and any(x[0] == 'BE' for x in evs[-2:]):
+                    ap_w, k = 12, rng.randrange(2, 8)
+                names = [f'n{fresh + j}'.encode() for j in range(k)]
+                w.append((ap_w, ('AP', names)))
+            else:
+                w.append((2 if shape == 'window' else 4, ('BE',)))
+            tot = sum(x for x, _e in w)
+            pick = rng.randrange(tot)
+            for x, e in w:
+                if pick < x:
+                    break
+                pick -= x
+            if e[0] == 'AP':
+                fresh += len(e[1])
+            evs.append(e)
+            real.ev(e)
+            while real.violations:
+                c, d = real.violations.pop(0)
+                viols.append((len(evs) - 1, c, d))
+            if viols:
+                break
+    finally:
+        real.close()
+    return src, dh, n, evs, viols, shape
+
+
+def shape_stats(res, lines, evs):
+    """which dangerous shapes a sequence exhibits, from its state lines"""
+    two_ext = any(l.split(' | ')[3].count('E ') >= 2 for l in lines)
+    window_start = False
+    for e, prev in zip(evs[1:], lines[:-1]):
+        if e[0] == 'ST' and prev.split(' | ')[2].split()[1] != '-':
+            window_start = True
+    if two_ext:
+        res.bump('schedules with two extensions in flight')
+    if window_start:
+        res.bump('schedules with a request started in the half-done window')
+    bb = [i for i, e in enumerate(evs) if e[0] == 'BB']
+    if bb and any(e[0] == 'AP' for e in evs[bb[0]:]):
+        res.bump('schedules with regrowth after a back-out')
+    for i in bb:
+        before = int(lines[i - 1].split()[0]) if i else None
+        after_i = next((j for j in range(i, len(evs)) if evs[j][0] == 'BE'), None)
+        if before is not None and after_i is not None and int(lines[after_i].split()[0]) < before:
+            res.bump('schedules whose back-out truncated the cache')
+            break
+    return two_ext, window_start
+
+
+# ---- entry points -------------------------------------------------------------------------------
 
 def run(tier, seed):
     res = SuiteResult('headercache')
-    res.rule = ('case = (source list, depth_higher, initial length, event sequence over extension start / worker '
-                'read / extension finish / back-out / append); all sequences up to the length bound over a small '
-                'alphabet plus seeded longer ones; non-trivial = the sequence contains a back-out while an extension '
-                'is in flight')
-    src0 = [f'h{i}'.encode() for i in range(9)]
-    alphabet = [('XS', 6), ('XS', 9), ('XS', 11), ('XR',), ('XF',), ('BK', 4), ('BK', 7), ('AP', 2)]
-    depth = 4 if tier == 'quick' else 5
-    lines, expect, index = [], [], []
-    cases = []
-    for dh, n in ((0, 3), (1, 5), (2, 4)):
-        for L in range(1, depth + 1):
-            for evs in itertools.product(alphabet, repeat=L):
-                cases.append((dh, n, list(evs)))
-    rng = rng_for(seed, 'headercache')
-    for _ in range(300 if tier == 'quick' else 5000):
-        dh = rng.choice([0, 1, 2, 3])
-        n = rng.randrange(1, 9)
-        evs = [rng.choice(alphabet + [('XS', rng.randrange(1, 14)), ('BK', rng.randrange(1, 12))])
-               for _ in range(rng.randrange(4, 14))]
-        cases.append((dh, n, evs))
-    nviol = 0
-    for dh, n, evs in cases:
-        start = len(lines)
-        viol = run_sequence(res, lines, expect, src0, dh, n, evs)
-        index.append((start, dh, n, evs))
-        in_flight_backout = False
-        started = False
-        for e in evs:
-            if e[0] == 'XS':
-                started = True
-            elif e[0] == 'XF':
-                started = False
-            elif e[0] == 'BK' and started:
-                in_flight_backout = True
-        res.note_case(f'{dh},{n},' + ';'.join(ev_line(e) for e in evs), nontrivial=in_flight_backout)
-        if viol is not None and nviol < 3:
-            nviol += 1
-            res.violations.append({'suite': 'headercache', 'clause': 'header cache inconsistent with the chain',
-                                   'detail': f'after event {viol[0]}: {viol[1]}', 'dh': dh, 'n': n,
-                                   'src': [x.decode() for x in src0], 'events': [ev_line(e) for e in evs[:viol[0] + 1]]})
-    got = run_evdrv('headercache', lines)
-    bad = 0
-    for i, (e, g) in enumerate(zip(expect, got)):
-        if e != g:
-            # find the case
-            k = max(j for j, (s, *_r) in enumerate(index) if s <= i)
-            s, dh, n, evs = index[k]
-            res.disagreements.append({'suite': 'headercache', 'dh': dh, 'n': n,
-                                      'events': [ev_line(x) for x in evs[:i - s]], 'code': e, 'model': g})
-            bad += 1
-            if bad >= 3:
-                break
-    res.sample({'dh': 0, 'n': 3, 'events': ['XS 9', 'XR', 'BK 7', 'AP n0,n1', 'XF'], 'note': 'the F7 interleaving'})
-    res.bump('sequences', len(cases))
+    res.rule = ('case = (visible hashes, depth_higher, initial cache length, event sequence over request start / '
+                'worker read performed / read delivered / back-out begin / back-out end / append); every sequence '
+                'of every scope up to its length bound (replayed from scratch on fresh real objects), the corpus, and '
+                'seeded random schedules of 8..40 events; non-trivial = two or more requests, or a back-out')
     res.exhaustive = True
+    with patched_run_in_thread():
+        order = derive_order()
+        res.bump(f'flush_backup order measured on the source: {order}')
+        flags = '11' + ('1' if order == 'lower-first' else '0')
+        if os.environ.get('HC_VARIANT'):           # development aid: compare with another model variant
+            flags = os.environ['HC_VARIANT']
+        batch = Batch(flags)
+        seen_clauses = set()
+        # 1. corpus
+        for c in corpus():
+            evs = [parse_line(l) for l in c['events']]
+            shown, viols, _en = run_real(c['src'], c['dh'], c['n'], evs)
+            batch.add((c['src'], c['dh'], c['n'], evs), False, shown)
+            res.note_case('corpus|' + c['name'])
+            if not c['shape'](shown):
+                res.harness_errors.append(f'corpus sequence {c["name"]} no longer reaches its shape')
+            if viols:
+                report(res, c['src'], c['dh'], c['n'], evs, viols[:1], seen_clauses, tag=c['name'])
+            res.sample({'corpus': c['name'], 'dh': c['dh'], 'n': c['n'], 'events': c['events']}, limit=5)
+        # 2. seeded random schedules
+        nrand = 2500 if tier == 'quick' else 60000
+        rng = rng_for(seed, 'headercache', tier)
+        two = win = 0
+        for k in range(nrand):
+            src, dh, n, evs, viols, shape = random_schedule(rng, res)
+            shown, viols2, _en = run_real(src, dh, n, evs)
+            batch.add((src, dh, n, evs), False, shown)
+            res.bump(f'random shape {shape}')
+            t, w = shape_stats(res, shown, evs)
+            two += t
+            win += w
+            res.note_case(f'rand|{dh}|{n}|{len(src)}|' + ';'.join(ev_line(e) for e in evs), nontrivial=True)
+            if viols2 and len(res.violations) < 3:
+                report(res, src, dh, n, evs, viols2, seen_clauses)
+        if two < nrand // 50 or win < nrand // 50:
+            res.harness_errors.append(f'random schedules miss their shapes: two-ext {two}, window-start {win} of {nrand}')
+        # 3. exhaustive scopes
+        budget = 60000 if tier == 'quick' else 1500000
+        for scope in scopes(tier):
+            enumerate_scope(res, batch, scope, seen_clauses, budget)
+            if len(res.violations) >= 3:
+                break
+        batch.compare(res)
+    res.violations = res.violations[:3]
     return res
 
 
 def replay(case):
-    evs = []
-    for l in case['events']:
-        w = l.split()
-        if w[0] in ('XS', 'BK'):
-            evs.append((w[0], int(w[1])))
-        elif w[0] == 'AP':
-            evs.append(('AP', len(w[1].split(','))))
-        else:
-            evs.append((w[0],))
-    res = SuiteResult('x')
-    v = run_sequence(res, [], [], [x.encode() for x in case['src']], case['dh'], case['n'], evs)
-    return [f'after event {v[0]}: {v[1]}'] if v else []
+    evs = [parse_line(l) for l in case['events']]
+    with patched_run_in_thread():
+        _s, viols, _e = run_real([x.encode() for x in case['src']], case['dh'], case['n'], evs)
+    return [f'after event {i} ({case["events"][i]}): {c}: {d}' for i, c, d in viols]
 
 
 def known_reproduces(finding):
